@@ -395,7 +395,8 @@ theorem memberPairs_noMany : ∀ (ms : List Ty), (memberPairs ms).any (·.1) = f
         | nil => simp [matchSeq, R2]
         | cons x xs => simp [matchSeq, R2, h2 xs]
 
-theorem flags_none_iff (f : Flags) : f.none = true ↔ f.noneReject = false ∧ f.litEq = false ∧ f.frag = false := by
+theorem flags_none_iff (f : Flags) :
+    f.none = true ↔ f.noneReject = false ∧ f.litEq = false ∧ f.frag = false ∧ f.loopNotFix = false := by
   cases f; simp [Flags.none, and_assoc]
 
 theorem flags_or_none (a b : Flags) : (a.or b).none = true ↔ a.none = true ∧ b.none = true := by
@@ -861,6 +862,551 @@ theorem Inv_assignAll : ∀ (xs : List Var) (os : List Obj) (vs : List Ty) (env 
     exact Inv_assignAll xs os vs _ _ (Inv_assign x o st.next v h hR.1) hR.2
 
 
+/-! ## 6c. `for` loops: the iterated value, covering, the loop itself -/
+
+theorem R2_mem_exists {α β : Type} (R : α → β → Bool) : ∀ (xs : List α) (ys : List β) (x : α),
+    R2 R xs ys = true → x ∈ xs → ∃ y ∈ ys, R x y = true
+  | [], _, _, _, h => by simp at h
+  | _ :: _, [], _, h, _ => by simp [R2] at h
+  | a :: xs, b :: ys, x, h, hx => by
+    simp only [R2, Bool.and_eq_true] at h
+    rcases List.mem_cons.mp hx with rfl | hx
+    · exact ⟨b, by simp, h.1⟩
+    · obtain ⟨y, hy, hr⟩ := R2_mem_exists R xs ys x h.2 hx
+      exact ⟨y, List.mem_cons_of_mem _ hy, hr⟩
+
+theorem unite_of_R2 (os : List Obj) (ms : List Ty) (h : R2 (fun x t => mem tb x t) os ms = true) :
+    ∀ x ∈ os, mem tb x (unite ms) = true := by
+  intro x hx
+  obtain ⟨t, ht, hm⟩ := R2_mem_exists _ os ms x h hx
+  rw [unite_mem']
+  exact List.any_eq_true.mpr ⟨t, ht, hm⟩
+
+theorem memAll_forall (t : Ty) (os : List Obj) (h : memAll tb os t = true) : ∀ x ∈ os, mem tb x t = true :=
+  fun x hx => memAll_mem t os x h hx
+
+/-- the members case of `iter1` on an actual sequence related to the members position by position -/
+theorem iter_seq_sound (c : Cls) (ms : List Ty) (lit : Flags) (os : List Obj)
+    (hR : R2 (fun x t => mem tb x t) os ms = true) (hno : (memberPairs ms).any (·.1) = false) :
+    let r : Option (List Ty) × Ty × Flags :=
+      if !(c == C.tuple || c == C.list) then (none, .any, { frag := true })
+      else if (memberPairs ms).any (·.1) then (none, unite ((memberPairs ms).map (·.2)), { frag := true })
+      else if ms.isEmpty then (some [], .union [], { frag := true })
+      else (some ms, unite ms, lit)
+    r.2.2.none = true → (∀ x ∈ os, mem tb x r.2.1 = true) ∧ (∀ ms', r.1 = some ms' → os.length = ms'.length) := by
+  intro r hf
+  have hl := R2_length _ os ms hR
+  by_cases hc : (!(c == C.tuple || c == C.list)) = true
+  · simp [r, hc, flags_none_iff] at hf
+  · by_cases he : ms.isEmpty = true
+    · simp [r, hc, hno, he, flags_none_iff] at hf
+    · simp only [r, hc, hno, he, Bool.false_eq_true, if_false]
+      exact ⟨unite_of_R2 os ms hR, fun ms' h => by simp only [Option.some.injEq] at h; subst h; exact hl⟩
+
+theorem iter1_sound (o : Obj) (v : Ty) (os : List Obj) (hm : mem tb o v = true) (hi : iterObj o = some os)
+    (hf : (iter1 v).2.2.none = true) :
+    (∀ x ∈ os, mem tb x (iter1 v).2.1 = true) ∧ (∀ ms, (iter1 v).1 = some ms → os.length = ms.length) := by
+  have hu := mem_unannot o v
+  rw [hm] at hu
+  unfold iter1 replaceKnownSeq at hf ⊢
+  cases hk : unannot v with
+  | known k =>
+    rw [hk] at hu hf
+    simp only [mem] at hu
+    cases k with
+    | tuple xs =>
+      dsimp only at hf ⊢
+      cases o <;> simp [Obj.same, Obj.tag, Obj.pyEq] at hu
+      rename_i ys
+      simp only [iterObj, Option.some.injEq] at hi
+      subst hi
+      rw [pyEqList_eq_R2] at hu
+      have hno : (memberPairs (xs.map Ty.known)).any (·.1) = false := by
+        rw [memberPairs_known]; simp [Function.comp_def]
+      have hnl : xs.any numLike = false := by
+        by_cases he : (xs.map Ty.known).isEmpty = true
+        · simp at he; subst he; rfl
+        · have hc : (!(C.tuple == C.tuple || C.tuple == C.list)) = false := by decide
+          simp only [hc, hno, he, Bool.false_eq_true, if_false, isKnown, Bool.true_and, any_known_numLike,
+            flags_none_iff] at hf
+          rw [← any_known_numLike]; exact hf.2.1
+      exact iter_seq_sound C.tuple (xs.map Ty.known) _ ys (R2_known_of_pyEq ys xs hu hnl) hno hf
+    | list xs =>
+      dsimp only at hf ⊢
+      cases o <;> simp [Obj.same, Obj.tag, Obj.pyEq] at hu
+      rename_i ys
+      simp only [iterObj, Option.some.injEq] at hi
+      subst hi
+      rw [pyEqList_eq_R2] at hu
+      have hno : (memberPairs (xs.map Ty.known)).any (·.1) = false := by
+        rw [memberPairs_known]; simp [Function.comp_def]
+      have hnl : xs.any numLike = false := by
+        by_cases he : (xs.map Ty.known).isEmpty = true
+        · simp at he; subst he; rfl
+        · have hc : (!(C.list == C.tuple || C.list == C.list)) = false := by decide
+          simp only [hc, hno, he, Bool.false_eq_true, if_false, isKnown, Bool.true_and, any_known_numLike,
+            flags_none_iff] at hf
+          rw [← any_known_numLike]; exact hf.2.1
+      exact iter_seq_sound C.list (xs.map Ty.known) _ ys (R2_known_of_pyEq ys xs hu hnl) hno hf
+    | _ => simp [flags_none_iff] at hf
+  | seq c ms =>
+    rw [hk] at hu hf
+    dsimp only at hf ⊢
+    simp only [mem, Bool.and_eq_true] at hu
+    have hys : ∃ ys, iterObj o = some ys ∧ matchSeq tb ys ms = true := by
+      cases o <;> simp [memSeq] at hu
+      · exact ⟨_, rfl, hu.2⟩
+      · exact ⟨_, rfl, hu.2⟩
+    obtain ⟨ys, hiy, hmatch⟩ := hys
+    rw [hi, Option.some.injEq] at hiy
+    subst hiy
+    by_cases hmany : (memberPairs ms).any (·.1) = true
+    · by_cases hc : (!(c == C.tuple || c == C.list)) = true
+      · simp [hc, flags_none_iff] at hf
+      · simp [hc, hmany, flags_none_iff] at hf
+    · have hmany' : (memberPairs ms).any (·.1) = false := by simpa using hmany
+      obtain ⟨_, h2⟩ := memberPairs_noMany ms hmany'
+      exact iter_seq_sound c ms _ os (by rw [← h2]; exact hmatch) hmany' hf
+  | generic c args =>
+    rw [hk] at hu hf
+    match args, hu, hf with
+    | [t], hu, hf =>
+      dsimp only at hf ⊢
+      by_cases hc : (c == C.list || c == C.tuple) = true
+      · simp only [hc, if_true]
+        refine ⟨?_, fun ms h => by simp at h⟩
+        simp only [mem, Bool.and_eq_true] at hu
+        have hc' : c = C.list ∨ c = C.tuple := by simpa using hc
+        have hfacts := iter_cls_facts
+        cases o with
+        | tuple xs =>
+          simp only [iterObj, Option.some.injEq] at hi; subst hi
+          exact memAll_forall t _ (by simpa [memArgs] using hu.2)
+        | list xs =>
+          simp only [iterObj, Option.some.injEq] at hi; subst hi
+          exact memAll_forall t _ (by simpa [memArgs] using hu.2)
+        | str s => rcases hc' with rfl | rfl <;> simp_all [clsOf]
+        | bytes s => rcases hc' with rfl | rfl <;> simp_all [clsOf]
+        | set xs => rcases hc' with rfl | rfl <;> simp_all [clsOf]
+        | fset xs => rcases hc' with rfl | rfl <;> simp_all [clsOf]
+        | dict ks vs' => rcases hc' with rfl | rfl <;> simp_all [clsOf]
+        | _ => simp [iterObj] at hi
+      · simp [hc, flags_none_iff] at hf
+    | [], _, hf => simp [flags_none_iff] at hf
+    | _ :: _ :: _, _, hf => simp [flags_none_iff] at hf
+  | any => exact ⟨fun x _ => by simp [mem], fun ms h => by simp at h⟩
+  | _ => rw [hk] at hf; simp [flags_none_iff] at hf
+
+theorem iterL_eq : ∀ (ts : List Ty), (iterL ts).1 = ts.map (fun v => ((iter1 v).1, (iter1 v).2.1)) ∧
+    ((iterL ts).2.none = true → ∀ v ∈ ts, (iter1 v).2.2.none = true)
+  | [] => by simp [iterL]
+  | v :: ts => by
+    obtain ⟨h1, h2⟩ := iterL_eq ts
+    simp only [iterL]
+    refine ⟨by simp [h1], fun hf w hw => ?_⟩
+    rw [flags_or_none] at hf
+    rcases List.mem_cons.mp hw with rfl | hw
+    · exact hf.1
+    · exact h2 hf.2 w hw
+
+theorem allSameLen_spec : ∀ (lens : List (Option Nat)), allSameLen lens = true →
+    ∃ n, n > 0 ∧ ∀ z ∈ lens, z = some n
+  | [], h => by simp [allSameLen] at h
+  | none :: _, h => by simp [allSameLen] at h
+  | some n :: rest, h => by
+    simp only [allSameLen, Bool.and_eq_true, decide_eq_true_eq] at h
+    refine ⟨n, h.1, fun z hz => ?_⟩
+    rcases List.mem_cons.mp hz with rfl | hz
+    · rfl
+    · simpa using List.all_eq_true.mp h.2 z hz
+
+theorem iterInfo_sound (o : Obj) (v : Ty) (os : List Obj) (hm : mem tb o v = true) (hi : iterObj o = some os)
+    (hf : (iterInfo v).flags.none = true) :
+    (∀ x ∈ os, mem tb x (iterInfo v).elem = true) ∧ ((iterInfo v).always = true → os ≠ []) := by
+  unfold iterInfo at hf ⊢
+  split at hf
+  · simp [mem, memAny] at hm
+  · rename_i ts _
+    simp only [mem] at hm
+    rw [memAny_eq_any] at hm
+    obtain ⟨m, hmm, hom⟩ := List.any_eq_true.mp hm
+    obtain ⟨h1, h2⟩ := iterL_eq ts
+    dsimp only at hf ⊢
+    obtain ⟨g1, g2⟩ := iter1_sound o m os hom hi (h2 hf m hmm)
+    refine ⟨fun x hx => ?_, fun ha => ?_⟩
+    · rw [unite_mem', h1]
+      exact List.any_eq_true.mpr ⟨(iter1 m).2.1, by simp only [List.map_map, List.mem_map]; exact ⟨m, hmm, rfl⟩, g1 x hx⟩
+    · obtain ⟨n, hn, hall⟩ := allSameLen_spec _ ha
+      have hz := hall (lenOf ((iter1 m).1, (iter1 m).2.1))
+        (by rw [h1]; simp only [List.map_map, List.mem_map]; exact ⟨m, hmm, rfl⟩)
+      simp only [lenOf] at hz
+      cases hr : (iter1 m).1 with
+      | none => rw [hr] at hz; simp at hz
+      | some ms =>
+        rw [hr] at hz
+        simp only [Option.some.injEq] at hz
+        have := g2 ms hr
+        intro he; subst he
+        simp at this; omega
+  · dsimp only at hf ⊢
+    obtain ⟨g1, g2⟩ := iter1_sound o v os hm hi hf
+    refine ⟨g1, fun ha => ?_⟩
+    cases hr : (iter1 v).1 with
+    | none => rw [hr] at ha; simp at ha
+    | some ms =>
+      rw [hr] at ha
+      have := g2 ms hr
+      intro he; subst he
+      simp only [List.length_nil] at this
+      have : ms = [] := List.length_eq_zero_iff.mp this.symm
+      subst this
+      simp at ha
+
+theorem tyCovers_mem (o : Obj) (w v : Ty) (h : tyCovers w v = true) (hm : mem tb o v = true) :
+    mem tb o w = true := by
+  have h1 : memAny tb o (flatten1 v) = true := by rw [memAny_flatten1]; exact hm
+  rw [memAny_eq_any] at h1
+  obtain ⟨m, hmm, hom⟩ := List.any_eq_true.mp h1
+  have := List.all_eq_true.mp h m hmm
+  obtain ⟨e, he, hhe⟩ := dictMem_iff.mp this
+  have hb := Ty.hashEq_imp_beq' e m hhe
+  rw [← memAny_flatten1, memAny_eq_any]
+  exact List.any_eq_true.mpr ⟨e, he, by rw [Ty.beq_mem' tb hb o]; exact hom⟩
+
+theorem entryCovered_holds (o : Obj) (d : Def) (es : List Def) (hd : d.holdsB o = true)
+    (hc : entryCovered d es = true) : Def.holdsAny o es = true := by
+  unfold entryCovered at hc
+  rcases Bool.or_eq_true_iff.mp hc with h | h
+  · obtain ⟨e, he, hs⟩ := List.any_eq_true.mp h
+    exact (holdsAny_iff o es).2 ⟨e, he, by rw [sameB_holds o e d hs]; exact hd⟩
+  · cases d with
+    | val i v =>
+      obtain ⟨e, he, hs⟩ := List.any_eq_true.mp h
+      cases e with
+      | val j w =>
+        simp only [Def.holdsB] at hd
+        exact (holdsAny_iff o es).2 ⟨_, he, by simpa [Def.holdsB] using tyCovers_mem o w v hs hd⟩
+      | con _ _ _ => simp at hs
+    | con _ _ _ => simp at h
+
+theorem Scope.get_mem (sc : Scope) (y : Var) (h : sc.get y ≠ []) : (y, sc.get y) ∈ sc := by
+  induction sc with
+  | nil => simp [Scope.get] at h
+  | cons hd tl ih =>
+    obtain ⟨z, es⟩ := hd
+    by_cases hz : z = y
+    · subst hz; simp [Scope.get]
+    · simp only [Scope.get, beq_iff_eq, hz, if_false] at h ⊢
+      exact List.mem_cons_of_mem _ (ih h)
+
+theorem scopeCovers_Inv {env : Env} {head exit : Scope} (h : Inv env exit) (hc : scopeCovers head exit = true) :
+    Inv env head := by
+  intro y o hy
+  have h1 := h y o hy
+  obtain ⟨d, hd, hh⟩ := (holdsAny_iff o _).1 h1
+  have hmem := Scope.get_mem exit y (holdsAny_ne_nil h1)
+  have := List.all_eq_true.mp hc _ hmem
+  exact entryCovered_holds o d _ hh (List.all_eq_true.mp this d hd)
+
+/-- the loop: every iteration starts in an environment that satisfies the invariant for the loop-head scope -/
+theorem forLoop_sound (run : Env → Outcome × RLog) (x : Var) (head exit : Scope) (idx : Nat) (elemT : Ty)
+    (logT : List (Path × Ty))
+    (hrun : ∀ env', Inv env' (head.set x [.val idx elemT]) →
+      (∀ n o, (n, o) ∈ (run env').2 → ∃ T', (n, T') ∈ logT ∧ mem tb o T' = true) ∧
+      (∀ env'', (run env').1 = .normal env'' → Inv env'' exit))
+    (hcov : scopeCovers head exit = true) :
+    ∀ (os : List Obj) (env : Env), Inv env head → (∀ o ∈ os, mem tb o elemT = true) →
+      (∀ n o, (n, o) ∈ (forLoop run x env os).2 → ∃ T', (n, T') ∈ logT ∧ mem tb o T' = true) ∧
+      (∀ env'', (forLoop run x env os).1 = .normal env'' → (os = [] ∧ env'' = env) ∨ Inv env'' exit)
+  | [], env, _, _ => by
+    simp only [forLoop]
+    exact ⟨fun n o h => by simp at h,
+      fun env'' h => by simp only [Outcome.normal.injEq] at h; exact Or.inl ⟨trivial, h.symm⟩⟩
+  | o :: os, env, hinv, hel => by
+    simp only [forLoop]
+    obtain ⟨r1, r2⟩ := hrun (env.set x o) (Inv_assign x o idx elemT hinv (hel o (by simp)))
+    cases hr : run (env.set x o) with
+    | mk out lg =>
+      rw [hr] at r1 r2
+      cases out with
+      | normal env1 =>
+        have hinv1 : Inv env1 head := scopeCovers_Inv (r2 env1 rfl) hcov
+        obtain ⟨g1, g2⟩ := forLoop_sound run x head exit idx elemT logT hrun hcov os env1 hinv1
+          (fun o' ho' => hel o' (List.mem_cons_of_mem _ ho'))
+        dsimp only
+        refine ⟨fun n o' h => ?_, fun env'' h => ?_⟩
+        · rcases List.mem_append.mp h with h | h
+          · exact r1 n o' h
+          · exact g1 n o' h
+        · rcases g2 env'' h with ⟨_, he⟩ | h'
+          · exact Or.inr (he ▸ r2 env1 rfl)
+          · exact Or.inr h'
+      | returned v => exact ⟨r1, fun env'' h => by simp at h⟩
+      | raised => exact ⟨r1, fun env'' h => by simp at h⟩
+
+/-! ## 6d. `+` and `+=` on ints and strs -/
+
+def intVal : Obj → Option Int
+  | .int n => some n
+  | .bool b => some (if b then 1 else 0)
+  | _ => none
+
+theorem add_cls_facts :
+    sub tb C.int C.int = true ∧ sub tb C.str C.str = true ∧
+    sub tb C.str C.int = false ∧ sub tb C.str C.bool = false ∧ sub tb C.bytes C.int = false ∧
+    sub tb C.bytes C.bool = false ∧ sub tb C.tuple C.int = false ∧ sub tb C.tuple C.bool = false ∧
+    sub tb C.list C.int = false ∧ sub tb C.list C.bool = false ∧
+    sub tb C.int C.str = false ∧ sub tb C.bool C.str = false ∧ sub tb C.bytes C.str = false ∧
+    sub tb C.tuple C.str = false ∧ sub tb C.list C.str = false := by decide +kernel
+
+theorem ikind_known (t : Ty) (n : Int) (o : Obj) (h : ikind t = some (some n)) (hm : mem tb o t = true) :
+    intVal o = some n := by
+  have hu := mem_unannot o t
+  rw [hm] at hu
+  unfold ikind at h
+  cases hk : unannot t with
+  | known k =>
+    rw [hk] at h hu
+    simp only [mem] at hu
+    cases k <;> simp at h
+    · subst h
+      cases o <;> simp [Obj.same, Obj.tag, Obj.pyEq] at hu
+      simp [intVal, hu]
+    · subst h
+      cases o <;> simp [Obj.same, Obj.tag, Obj.pyEq] at hu
+      simp [intVal, hu]
+  | typed c => rw [hk] at h; dsimp only at h; split at h <;> simp at h
+  | _ => rw [hk] at h; simp at h
+
+theorem skind_known (t : Ty) (z : String) (o : Obj) (h : skind t = some (some z)) (hm : mem tb o t = true) :
+    o = .str z := by
+  have hu := mem_unannot o t
+  rw [hm] at hu
+  unfold skind at h
+  cases hk : unannot t with
+  | known k =>
+    rw [hk] at h hu
+    simp only [mem] at hu
+    cases k <;> simp at h
+    subst h
+    cases o <;> simp [Obj.same, Obj.tag, Obj.pyEq] at hu
+    simp [hu]
+  | typed c => rw [hk] at h; dsimp only at h; split at h <;> simp at h
+  | _ => rw [hk] at h; simp at h
+
+/-- an object of an int-like value that `+` accepts on the left is an int or a bool -/
+theorem ikind_add_left (t : Ty) (k : Option Int) (a b r : Obj) (h : ikind t = some k) (hm : mem tb a t = true)
+    (hadd : addObj a b = some r) : ∃ x, intVal a = some x := by
+  cases k with
+  | some n => exact ⟨n, ikind_known t n a h hm⟩
+  | none =>
+    have hu := mem_unannot a t
+    rw [hm] at hu
+    unfold ikind at h
+    have hfacts := add_cls_facts
+    cases hk : unannot t with
+    | known kk => rw [hk] at h; cases kk <;> simp at h
+    | typed c =>
+      rw [hk] at h hu
+      dsimp only at h
+      have hc : c = C.int ∨ c = C.bool := by
+        by_cases hc : (c == C.int || c == C.bool) = true
+        · simpa using hc
+        · simp [hc] at h
+      simp only [mem] at hu
+      cases a with
+      | int n => exact ⟨n, rfl⟩
+      | bool v => exact ⟨_, rfl⟩
+      | str z => rcases hc with rfl | rfl <;> simp_all [clsOf]
+      | bytes z => rcases hc with rfl | rfl <;> simp_all [clsOf]
+      | tuple xs => rcases hc with rfl | rfl <;> simp_all [clsOf]
+      | list xs => rcases hc with rfl | rfl <;> simp_all [clsOf]
+      | _ => simp [addObj] at hadd
+    | _ => rw [hk] at h; simp at h
+
+theorem skind_add_left (t : Ty) (k : Option String) (a b r : Obj) (h : skind t = some k) (hm : mem tb a t = true)
+    (hadd : addObj a b = some r) : ∃ z, a = .str z := by
+  cases k with
+  | some z => exact ⟨z, skind_known t z a h hm⟩
+  | none =>
+    have hu := mem_unannot a t
+    rw [hm] at hu
+    unfold skind at h
+    have hfacts := add_cls_facts
+    cases hk : unannot t with
+    | known kk => rw [hk] at h; cases kk <;> simp at h
+    | typed c =>
+      rw [hk] at h hu
+      dsimp only at h
+      have hc : c = C.str := by
+        by_cases hc : (c == C.str) = true
+        · simpa using hc
+        · simp [hc] at h
+      subst hc
+      simp only [mem] at hu
+      cases a with
+      | str z => exact ⟨z, rfl⟩
+      | int n => simp_all [clsOf]
+      | bool v => simp_all [clsOf]
+      | bytes z => simp_all [clsOf]
+      | tuple xs => simp_all [clsOf]
+      | list xs => simp_all [clsOf]
+      | _ => simp [addObj] at hadd
+    | _ => rw [hk] at h; simp at h
+
+theorem addObj_int (a b r : Obj) (x : Int) (ha : intVal a = some x) (hadd : addObj a b = some r) :
+    ∃ y, intVal b = some y ∧ r = .int (x + y) := by
+  cases a <;> simp [intVal] at ha <;> cases b <;> simp [addObj] at hadd <;> subst ha <;> subst hadd <;> simp [intVal]
+
+theorem addObj_str (z : String) (b r : Obj) (hadd : addObj (.str z) b = some r) :
+    ∃ w, b = .str w ∧ r = .str (z ++ w) := by
+  cases b <;> simp [addObj] at hadd
+  subst hadd; exact ⟨_, rfl, rfl⟩
+
+theorem add1_sound (a b r : Obj) (l rt : Ty) (hl : mem tb a l = true) (hr : mem tb b rt = true)
+    (hadd : addObj a b = some r) (hf : (add1 l rt).2.none = true) : mem tb r (add1 l rt).1 = true := by
+  have hfacts := add_cls_facts
+  unfold add1
+  cases hik : ikind l with
+  | some kl =>
+    dsimp only
+    obtain ⟨x, hx⟩ := ikind_add_left l kl a b r hik hl hadd
+    obtain ⟨y, hy, hrr⟩ := addObj_int a b r x hx hadd
+    subst hrr
+    by_cases hcond : ((flatten1 rt).all (fun m => (ikind m).isSome) && !(flatten1 rt).isEmpty) = true
+    · simp only [hcond, if_true]
+      generalize hrk : (if isUnion rt = true then none else (ikind rt).getD none) = rk
+      cases kl with
+      | none => simp [mem, clsOf, hfacts.1]
+      | some a' =>
+        cases rk with
+        | none => simp [mem, clsOf, hfacts.1]
+        | some b' =>
+          dsimp only
+          have hxa := ikind_known l a' a hik hl
+          rw [hx] at hxa
+          simp only [Option.some.injEq] at hxa
+          by_cases hun : isUnion rt = true
+          · simp [hun] at hrk
+          · simp only [hun, Bool.false_eq_true, if_false] at hrk
+            cases hir : ikind rt with
+            | none => simp [hir] at hrk
+            | some kk =>
+              simp only [hir, Option.getD_some] at hrk
+              subst hrk
+              have hyb := ikind_known rt b' b hir hr
+              rw [hy] at hyb
+              simp only [Option.some.injEq] at hyb
+              subst hxa; subst hyb
+              simp [mem, Obj.same_refl]
+    · simp only [hcond]
+      simp [mem]
+  | none =>
+    dsimp only
+    cases hsk : skind l with
+    | some kl =>
+      dsimp only
+      obtain ⟨z, hz⟩ := skind_add_left l kl a b r hsk hl hadd
+      subst hz
+      obtain ⟨w, hw, hrr⟩ := addObj_str z b r hadd
+      subst hw; subst hrr
+      by_cases hcond : ((flatten1 rt).all (fun m => (skind m).isSome) && !(flatten1 rt).isEmpty) = true
+      · simp only [hcond, if_true]
+        generalize hrk : (if isUnion rt = true then none else (skind rt).getD none) = rk
+        cases kl with
+        | none => simp [mem, clsOf, hfacts.2.1]
+        | some a' =>
+          cases rk with
+          | none => simp [mem, clsOf, hfacts.2.1]
+          | some b' =>
+            dsimp only
+            have hza := skind_known l a' (.str z) hsk hl
+            simp only [Obj.str.injEq] at hza
+            by_cases hun : isUnion rt = true
+            · simp [hun] at hrk
+            · simp only [hun, Bool.false_eq_true, if_false] at hrk
+              cases hir : skind rt with
+              | none => simp [hir] at hrk
+              | some kk =>
+                simp only [hir, Option.getD_some] at hrk
+                subst hrk
+                have hwb := skind_known rt b' (.str w) hir hr
+                simp only [Obj.str.injEq] at hwb
+                subst hza; subst hwb
+                simp [mem, Obj.same_refl]
+      · simp only [hcond]
+        simp [mem]
+    | none => simp [mem]
+
+theorem addL_eq (r : Ty) : ∀ (ls : List Ty), (addL r ls).1 = ls.map (fun l => (add1 l r).1) ∧
+    ((addL r ls).2.none = true → ∀ l ∈ ls, (add1 l r).2.none = true)
+  | [] => by simp [addL]
+  | l :: ls => by
+    obtain ⟨h1, h2⟩ := addL_eq r ls
+    simp only [addL]
+    refine ⟨by simp [h1], fun hf w hw => ?_⟩
+    rw [flags_or_none] at hf
+    rcases List.mem_cons.mp hw with rfl | hw
+    · exact hf.1
+    · exact h2 hf.2 w hw
+
+theorem addVals_sound (a b r : Obj) (vl vr : Ty) (hl : mem tb a vl = true) (hr : mem tb b vr = true)
+    (hadd : addObj a b = some r) (hf : (addVals vl vr).2.none = true) : mem tb r (addVals vl vr).1 = true := by
+  unfold addVals at hf ⊢
+  obtain ⟨h1, h2⟩ := addL_eq vr (flatten1 vl)
+  dsimp only at hf ⊢
+  have hf' := (flags_or_none _ _).mp hf
+  have hm1 : memAny tb a (flatten1 vl) = true := by rw [memAny_flatten1]; exact hl
+  rw [memAny_eq_any] at hm1
+  obtain ⟨l, hlm, hal⟩ := List.any_eq_true.mp hm1
+  rw [unite_mem', h1]
+  exact List.any_eq_true.mpr ⟨_, List.mem_map.mpr ⟨l, hlm, rfl⟩, add1_sound a b r l vr hal hr hadd (h2 hf'.1 l hlm)⟩
+
+/-- `+=` with a list on the left: the modelled `+` gives up (`Any`) -/
+theorem add1_list (xs : List Obj) (l rt : Ty) (hl : mem tb (.list xs) l = true) : (add1 l rt).1 = .any := by
+  have hfacts := add_cls_facts
+  have hu := mem_unannot (.list xs) l
+  rw [hl] at hu
+  have hi : ikind l = none := by
+    unfold ikind
+    cases hk : unannot l with
+    | known k => rw [hk] at hu; cases k <;> simp_all [mem, Obj.same, Obj.tag]
+    | typed c =>
+      rw [hk] at hu
+      simp only [mem, clsOf] at hu
+      by_cases hc : (c == C.int || c == C.bool) = true
+      · have hc' : c = C.int ∨ c = C.bool := by simpa using hc
+        rcases hc' with rfl | rfl <;> simp_all
+      · simp [hc]
+    | _ => rfl
+  have hs : skind l = none := by
+    unfold skind
+    cases hk : unannot l with
+    | known k => rw [hk] at hu; cases k <;> simp_all [mem, Obj.same, Obj.tag]
+    | typed c =>
+      rw [hk] at hu
+      simp only [mem, clsOf] at hu
+      by_cases hc : (c == C.str) = true
+      · have hc' : c = C.str := by simpa using hc
+        subst hc'; simp_all
+      · simp [hc]
+    | _ => rfl
+  simp [add1, hi, hs]
+
+theorem augVals_sound (a b r : Obj) (vl vr : Ty) (hl : mem tb a vl = true) (hr : mem tb b vr = true)
+    (hadd : augObj a b = some r) (hf : (addVals vl vr).2.none = true) : mem tb r (addVals vl vr).1 = true := by
+  cases a with
+  | list xs =>
+    unfold addVals
+    obtain ⟨h1, _⟩ := addL_eq vr (flatten1 vl)
+    dsimp only
+    have hm1 : memAny tb (.list xs) (flatten1 vl) = true := by rw [memAny_flatten1]; exact hl
+    rw [memAny_eq_any] at hm1
+    obtain ⟨l, hlm, hal⟩ := List.any_eq_true.mp hm1
+    rw [unite_mem', h1]
+    exact List.any_eq_true.mpr ⟨_, List.mem_map.mpr ⟨l, hlm, rfl⟩, by rw [add1_list xs l vr hal]; simp [mem]⟩
+  | _ => exact addVals_sound _ b r vl vr hl hr (by simpa [augObj] using hadd) hf
+
 /-! ## 7. monotonicity of the inference state (log and flags only grow) -/
 
 /-- the assumption on the helper functions, as an instance so that the induction carries it along -/
@@ -916,7 +1462,12 @@ theorem inferExpr_le : ∀ (e : Expr) (st : St) (p : Path), St.le st (inferExpr 
     exact ⟨fun x h => List.mem_append_left _ h, fun h => h⟩
   | .call f args, st, p => by
     simp only [inferExpr]
-    exact St.le_trans (inferList_le args st p 0) ⟨fun x h => List.mem_append_left _ h, fun h => h⟩
+    exact St.le_trans (inferList_le args st p 0)
+      ⟨fun x h => List.mem_append_left _ h, fun h => ((flags_or_none _ _).mp h).1⟩
+  | .add a b, st, p => by
+    simp only [inferExpr]
+    refine St.le_trans (inferExpr_le a st (0 :: p)) (St.le_trans (inferExpr_le b _ (1 :: p)) ?_)
+    exact ⟨fun x h => List.mem_append_left _ h, fun h => ((flags_or_none _ _).mp h).1⟩
 theorem inferList_le : ∀ (es : List Expr) (st : St) (p : Path) (k : Nat), St.le st (inferList R st p k es).2
   | [], st, p, k => by simp only [inferList]; exact St.le_refl st
   | e :: es, st, p, k => by
@@ -1113,7 +1664,7 @@ theorem inferExpr_sound : ∀ (e : Expr) (st : St) (p : Path) (env : Env), Inv e
               exact hm
   | .call f args, st, p, env, hinv, hf => by
     simp only [inferExpr] at hf ⊢
-    obtain ⟨h1, h2, _⟩ := inferList_sound args st p 0 env hinv hf
+    obtain ⟨h1, h2, _⟩ := inferList_sound args st p 0 env hinv ((flags_or_none _ _).mp hf).1
     simp only [evalExpr]
     cases hev : evalList impl env p 0 args with
     | mk r lg =>
@@ -1141,6 +1692,58 @@ theorem inferExpr_sound : ∀ (e : Expr) (st : St) (p : Path) (env : Env), Inv e
           · simp only [Option.some.injEq] at h
             subst h
             exact hm
+  | .add a b, st, p, env, hinv, hf => by
+    simp only [inferExpr] at hf ⊢
+    have hf2 := (flags_or_none _ _).mp hf
+    have hleB := inferExpr_le (R := R) b (inferExpr R st (0 :: p) a).2 (1 :: p)
+    obtain ⟨h1, h2, h3⟩ := inferExpr_sound a st (0 :: p) env hinv (hleB.2 hf2.1)
+    obtain ⟨g1, g2, g3⟩ := inferExpr_sound b _ (1 :: p) env h1 hf2.1
+    simp only [evalExpr]
+    cases heva : evalExpr impl env (0 :: p) a with
+    | mk ra lga =>
+      rw [heva] at h2 h3
+      have h2' := log_lift hleB h2
+      cases ra with
+      | none =>
+        refine ⟨g1, fun n o h => ?_, fun o h => by simp at h⟩
+        obtain ⟨T', hT, hm⟩ := h2' n o h
+        exact ⟨T', List.mem_append_left _ hT, hm⟩
+      | some oa =>
+        dsimp only
+        cases hevb : evalExpr impl env (1 :: p) b with
+        | mk rb lgb =>
+          rw [hevb] at g2 g3
+          have hlog : ∀ n o, (n, o) ∈ lga ++ lgb → ∃ T', (n, T') ∈ (inferExpr R (inferExpr R st (0 :: p) a).2 (1 :: p) b).2.log ∧
+              mem tb o T' = true := by
+            intro n o h
+            rcases List.mem_append.mp h with h | h
+            · exact h2' n o h
+            · exact g2 n o h
+          cases rb with
+          | none =>
+            refine ⟨g1, fun n o h => ?_, fun o h => by simp at h⟩
+            obtain ⟨T', hT, hm⟩ := hlog n o h
+            exact ⟨T', List.mem_append_left _ hT, hm⟩
+          | some ob =>
+            dsimp only
+            cases hadd : addObj oa ob with
+            | none =>
+              refine ⟨g1, fun n o h => ?_, fun o h => by simp at h⟩
+              obtain ⟨T', hT, hm⟩ := hlog n o h
+              exact ⟨T', List.mem_append_left _ hT, hm⟩
+            | some r =>
+              have hm := addVals_sound oa ob r _ _ (h3 oa rfl) (g3 ob rfl) hadd hf2.2
+              refine ⟨g1, fun n o h => ?_, fun o h => ?_⟩
+              · simp only [List.mem_append, List.mem_singleton, Prod.mk.injEq] at h
+                rcases h with (h | h) | ⟨rfl, rfl⟩
+                · obtain ⟨T', hT, hm'⟩ := h2' n o h
+                  exact ⟨T', List.mem_append_left _ hT, hm'⟩
+                · obtain ⟨T', hT, hm'⟩ := g2 n o h
+                  exact ⟨T', List.mem_append_left _ hT, hm'⟩
+                · exact ⟨_, by simp, hm⟩
+              · simp only [Option.some.injEq] at h
+                subst h
+                exact hm
 theorem inferList_sound : ∀ (es : List Expr) (st : St) (p : Path) (k : Nat) (env : Env), Inv env st.sc →
     (inferList R st p k es).2.flags.none = true →
     LSound env (inferList R st p k es).2 (inferList R st p k es).1 (evalList impl env p k es)
@@ -1184,6 +1787,11 @@ end
 
 /-! ## 9. statements -/
 
+theorem forS_le_aux (st0 p3 : St) (x : Var) (elem : Ty) (S after : Scope) (fl extra : Flags)
+    (h : St.le (forStart st0 x elem S (st0.flags.or fl) st0.log) p3) :
+    St.le st0 { p3 with sc := after, flags := p3.flags.or extra } :=
+  ⟨fun y hy => h.1 y hy, fun hf => ((flags_or_none _ _).mp (h.2 ((flags_or_none _ _).mp hf).1)).1⟩
+
 mutual
 theorem inferStmt_le : ∀ (s : Stmt) (st : St) (p : Path), St.le st (inferStmt R st p s).1
   | .assign x e, st, p => by
@@ -1200,6 +1808,14 @@ theorem inferStmt_le : ∀ (s : Stmt) (st : St) (p : Path), St.le st (inferStmt 
     refine ⟨fun x h => by rw [hl]; exact h, fun h => ?_⟩
     rw [hfl] at h
     exact ((flags_or_none _ _).mp h).1
+  | .aug x e, st, p => by
+    simp only [inferStmt]
+    refine St.le_trans (inferExpr_le (R := R) e st (0 :: p)) (St.le_trans (St.le_lookup _ x) ?_)
+    exact ⟨fun y h => h, fun h => ((flags_or_none _ _).mp h).1⟩
+  | .forS x e body, st, p => by
+    simp only [inferStmt]
+    exact St.le_trans (inferExpr_le (R := R) e st (0 :: p))
+      (forS_le_aux _ _ _ _ _ _ _ _ (inferBlock_le body _ (1 :: p) 0))
   | .ifs t body els, st, p => by
     simp only [inferStmt]
     have h1 := St.le_lookup st t.var
@@ -1224,6 +1840,61 @@ end
 def SSound (env : Env) (r : St × Bool) (ex : Outcome × RLog) : Prop :=
   (∀ n o, (n, o) ∈ ex.2 → ∃ T', (n, T') ∈ r.1.log ∧ mem tb o T' = true) ∧
   (∀ env', ex.1 = .normal env' → r.2 = true ∧ Inv env' r.1.sc)
+
+
+/-- the `for` case, for ANY scope `S3` assumed at the loop head of the checking visit: what matters is only that the
+environment satisfies the invariant for it before the first iteration and that the scope the body leaves is covered by
+it (`loopNotFix` not raised) -/
+theorem forS_core (body : List Stmt) (p : Path) (x : Var) (st0 : St) (elemT : Ty) (always : Bool) (fl0 : Flags)
+    (fr : Bool) (S3 : Scope) (env : Env) (os : List Obj) (lgE : RLog)
+    (hbody : ∀ (st : St) (env : Env), Inv env st.sc → (inferBlock R st (1 :: p) 0 body).1.flags.none = true →
+      SSound env (inferBlock R st (1 :: p) 0 body) (execBlock impl env (1 :: p) 0 body))
+    (hle : St.le (forStart st0 x elemT S3 (st0.flags.or fl0) st0.log)
+      (inferBlock R (forStart st0 x elemT S3 (st0.flags.or fl0) st0.log) (1 :: p) 0 body).1)
+    (hinv0 : Inv env st0.sc) (hinv3 : Inv env S3)
+    (hel : ∀ o ∈ os, mem tb o elemT = true) (halw : always = true → os ≠ [])
+    (hlogE : ∀ n o, (n, o) ∈ lgE → ∃ T', (n, T') ∈ st0.log ∧ mem tb o T' = true)
+    (hf : ((inferBlock R (forStart st0 x elemT S3 (st0.flags.or fl0) st0.log) (1 :: p) 0 body).1.flags.or
+      { loopNotFix := !scopeCovers S3 (inferBlock R (forStart st0 x elemT S3 (st0.flags.or fl0) st0.log) (1 :: p) 0 body).1.sc,
+        frag := fr }).none = true) :
+    SSound env
+      ({ (inferBlock R (forStart st0 x elemT S3 (st0.flags.or fl0) st0.log) (1 :: p) 0 body).1 with
+          sc := if always then (inferBlock R (forStart st0 x elemT S3 (st0.flags.or fl0) st0.log) (1 :: p) 0 body).1.sc
+                else joinScopes (inferBlock R (forStart st0 x elemT S3 (st0.flags.or fl0) st0.log) (1 :: p) 0 body).1.sc st0.sc,
+          flags := (inferBlock R (forStart st0 x elemT S3 (st0.flags.or fl0) st0.log) (1 :: p) 0 body).1.flags.or
+            { loopNotFix := !scopeCovers S3 (inferBlock R (forStart st0 x elemT S3 (st0.flags.or fl0) st0.log) (1 :: p) 0 body).1.sc,
+              frag := fr } }, true)
+      ((forLoop (fun env' => execBlock impl env' (1 :: p) 0 body) x env os).1,
+       lgE ++ (forLoop (fun env' => execBlock impl env' (1 :: p) 0 body) x env os).2) := by
+  have hf' := (flags_or_none _ _).mp hf
+  have hcov : scopeCovers S3 (inferBlock R (forStart st0 x elemT S3 (st0.flags.or fl0) st0.log) (1 :: p) 0 body).1.sc = true := by
+    have := ((flags_none_iff _).mp hf'.2).2.2.2
+    simpa using this
+  have hrun : ∀ env', Inv env' (S3.set x [.val st0.next elemT]) →
+      (∀ n o, (n, o) ∈ (execBlock impl env' (1 :: p) 0 body).2 →
+        ∃ T', (n, T') ∈ (inferBlock R (forStart st0 x elemT S3 (st0.flags.or fl0) st0.log) (1 :: p) 0 body).1.log ∧
+          mem tb o T' = true) ∧
+      (∀ env'', (execBlock impl env' (1 :: p) 0 body).1 = .normal env'' →
+        Inv env'' (inferBlock R (forStart st0 x elemT S3 (st0.flags.or fl0) st0.log) (1 :: p) 0 body).1.sc) := by
+    intro env' hinv'
+    obtain ⟨a1, a2⟩ := hbody (forStart st0 x elemT S3 (st0.flags.or fl0) st0.log) env' hinv' hf'.1
+    exact ⟨a1, fun env'' h => (a2 env'' h).2⟩
+  obtain ⟨g1, g2⟩ := forLoop_sound (fun env' => execBlock impl env' (1 :: p) 0 body) x S3 _ st0.next elemT _
+    hrun hcov os env hinv3 hel
+  refine ⟨fun n o h => ?_, fun env'' h => ⟨rfl, ?_⟩⟩
+  · rcases List.mem_append.mp h with h | h
+    · obtain ⟨T', hT, hm⟩ := hlogE n o h
+      exact ⟨T', hle.1 _ hT, hm⟩
+    · exact g1 n o h
+  · dsimp only at h ⊢
+    rcases g2 env'' h with ⟨he, henv⟩ | hI'
+    · subst henv
+      cases always with
+      | true => exact absurd he (halw rfl)
+      | false => simpa using Inv_join_right _ hinv0
+    · cases always with
+      | true => simpa using hI'
+      | false => simpa using Inv_join_left _ hI'
 
 section
 variable [hI : ImplOkC impl R]
@@ -1289,6 +1960,56 @@ theorem inferStmt_sound : ∀ (s : Stmt) (st : St) (p : Path) (env : Env), Inv e
             exact Inv_assignAll xs os _ env _ h1 hR
           · simp only [hlen, Bool.false_eq_true, if_false]
             exact ⟨h2', fun env' h => by simp at h⟩
+  | .aug x e, st, p, env, hinv, hf => by
+    simp only [inferStmt] at hf ⊢
+    have hf2 := (flags_or_none _ _).mp hf
+    have hfl := (flags_or_none _ _).mp hf2.1
+    obtain ⟨h1, h2, h3⟩ := inferExpr_sound (impl := impl) (R := R) e st (0 :: p) env hinv hfl.1
+    have hbad : Def.badL ((inferExpr R st (0 :: p) e).2.sc.get x) = false := ((flags_none_iff _).mp hfl.2).1
+    simp only [execStmt]
+    cases hev : evalExpr impl env (0 :: p) e with
+    | mk r lg =>
+      rw [hev] at h2 h3
+      cases r with
+      | none => exact ⟨h2, fun env' h => by simp at h⟩
+      | some y =>
+        dsimp only
+        cases hx : env.get x with
+        | none => exact ⟨h2, fun env' h => by simp at h⟩
+        | some xv =>
+          dsimp only
+          cases hadd : augObj xv y with
+          | none => exact ⟨h2, fun env' h => by simp at h⟩
+          | some rr =>
+            refine ⟨h2, fun env' h => ?_⟩
+            simp only [Outcome.normal.injEq] at h
+            subst h
+            have hxl := lookup_sound xv _ (h1 x xv hx) hbad
+            have hm := augVals_sound xv y rr _ _ hxl (h3 y rfl) hadd hf2.2
+            exact ⟨rfl, Inv_assign x rr _ _ h1 hm⟩
+  | .forS x e body, st, p, env, hinv, hf => by
+    simp only [inferStmt] at hf ⊢
+    have hle3 := inferBlock_le (R := R) body (forStart (inferExpr R st (0 :: p) e).2 x (iterInfo (inferExpr R st (0 :: p) e).1).elem
+      (joinScopes (inferExpr R st (0 :: p) e).2.sc (inferBlock R (forStart (inferExpr R st (0 :: p) e).2 x (iterInfo (inferExpr R st (0 :: p) e).1).elem (if (iterInfo (inferExpr R st (0 :: p) e).1).always then (inferBlock R (forStart (inferExpr R st (0 :: p) e).2 x (iterInfo (inferExpr R st (0 :: p) e).1).elem (inferExpr R st (0 :: p) e).2.sc {} []) (1 :: p) 0 body).1.sc else joinScopes (inferBlock R (forStart (inferExpr R st (0 :: p) e).2 x (iterInfo (inferExpr R st (0 :: p) e).1).elem (inferExpr R st (0 :: p) e).2.sc {} []) (1 :: p) 0 body).1.sc (inferExpr R st (0 :: p) e).2.sc) {} []) (1 :: p) 0 body).1.sc) ((inferExpr R st (0 :: p) e).2.flags.or (iterInfo (inferExpr R st (0 :: p) e).1).flags) (inferExpr R st (0 :: p) e).2.log) (1 :: p) 0
+    have hf3 := ((flags_or_none _ _).mp hf).1
+    have hf0 := (flags_or_none _ _).mp (hle3.2 hf3)
+    obtain ⟨h1, h2, h3⟩ := inferExpr_sound (impl := impl) (R := R) e st (0 :: p) env hinv hf0.1
+    simp only [execStmt]
+    cases hev : evalExpr impl env (0 :: p) e with
+    | mk r lg =>
+      rw [hev] at h2 h3
+      cases r with
+      | none => exact ⟨fun n o h => by obtain ⟨T', hT, hm⟩ := h2 n o h; exact ⟨T', hle3.1 _ hT, hm⟩, fun env' h => by simp at h⟩
+      | some o =>
+        dsimp only
+        cases hi : iterObj o with
+        | none => exact ⟨fun n o h => by obtain ⟨T', hT, hm⟩ := h2 n o h; exact ⟨T', hle3.1 _ hT, hm⟩, fun env' h => by simp at h⟩
+        | some os =>
+          dsimp only
+          obtain ⟨e1, e2⟩ := iterInfo_sound o _ os (h3 o rfl) hi hf0.2
+          exact forS_core body p x _ _ _ _ _ _ env os lg
+            (fun st' env' hi' hf' => inferBlock_sound body st' (1 :: p) 0 env' hi' hf')
+            hle3 h1 (Inv_join_left _ h1) e1 e2 h2 hf
   | .ifs t body els, st, p, env, hinv, hf => by
     simp only [inferStmt] at hf ⊢
     have hinv0 : Inv env (st.lookup t.var).2.sc := hinv
